@@ -83,7 +83,7 @@ def run(ctx):
                     ctx.count("evaluations")
 
     # ---- 3. seeded random reads, incl. cursor chains (several reads on one object) ---------------
-    nrand = ctx.size(25_000, 400_000)
+    nrand = ctx.size(100_000, 2_000_000)
     done = 0
     while done < nrand:
         ln = rng.choice([1, 2, 3, 7, 8, 9, 16, 33, 100, rng.randrange(1, 300)])
@@ -112,7 +112,7 @@ def insitu(ctx):
     from vmon import core
     import space_packet_parser as spp
     data = os.path.join(core.REPO, "tests", "test_data")
-    jobs = [("jpss/jpss1_geolocation_xtce_v1.xml", "jpss/J01_G011_LZ_2021-04-09T00-00-00Z_V01.DAT1", {}, 60, 7200),
+    jobs = [("jpss/jpss1_geolocation_xtce_v1.xml", "jpss/J01_G011_LZ_2021-04-09T00-00-00Z_V01.DAT1", {}, 60, 2000),
             ("suda/suda_combined_science_definition.xml", "suda/sciData_2022_130_17_41_53.spl",
              {"skip_header_bytes": 4}, 12, 1000),
             ("ctim/ctim_xtce_v1.xml", "ctim/ccsds_2021_155_14_39_51",
